@@ -158,7 +158,9 @@ func minI(a, b int) int {
 }
 
 // weirdTexts: what the public Text field may hold
-var weirdTexts = []string{"", " ", "plain", "́a", "́", "á̂̃", "\x00\x01\x1f", "tab\there", "line\nbreak", "cr\rlf\r\n", "😀𝒳", "\xff\xfe", "a & b < c > d", "<b>bold</b>", "{\\i1}x", "-->", "$¤Ω", strings.Repeat("long ", 60), " ", " ", "\ufeff", "\U0010ffff", "é", "é", "日本語", "&amp;", "]]>", "\x8a", "0\x0bx\x0a"}
+var weirdTexts = []string{"", " ", "plain", "́a", "́", "á̂̃", "\x00\x01\x1f", "tab\there", "line\nbreak", "cr\rlf\r\n", "😀𝒳", "\xff\xfe", "a & b < c > d", "<b>bold</b>", "{\\i1}x", "-->", "$¤Ω", strings.Repeat("long ", 60), " ", " ", "\ufeff", "\U0010ffff", "é", "é", "日本語", "&amp;", "]]>", "\x8a", "0\x0bx\x0a",
+	// characters outside the Latin repertoire directly followed by (or decomposing into) a combining mark
+	"Ёлка", "Йод", "😀\u0301", "日\u0301本", "\u0416\u0308", "Ω\u0301", "\u0301\u0301a"}
 
 func weirdAttrs(r *rng) *astisub.StyleAttributes {
 	if r.chance(1, 3) {
